@@ -144,6 +144,115 @@ CHECKS = {
          "the thorough tier via 3 bulk patterns chosen by TLC at 2^20-id granularity; size()/used_memory()/is_dense() not "
          "compared; clear() outside the histories; thorough replays a seeded sample of the exported histories.",
     technique="TLA+ specs + TLC refinement check; behaviour export (BFS and simulation) + step-wise replay on the real code under ASan/UBSan"),
+
+ "C13": dict(
+    category="model_checking",
+    text="TLA+ specs NumTextCoord/NumTextCoordFmt/NumTextTime/NumTextInt: each conversion has an A-layer (what the text means, exact "
+         "positional arithmetic on digit sequences because TLC integers are 32 bit) and an I-layer (the code's scanner/formatter as a "
+         "state machine, one action per statement or loop iteration: string_to_location_coordinate, "
+         "append_location_coordinate_to_string, parse_timestamp/fractional_seconds/to_iso_str with timegm/gmtime_r as environment, "
+         "opl_parse_int<T>, the strtoll/strtoul wrappers, output_int). TLC checks I => A, absence of int64 overflow and over-reads, "
+         "and the round-trip theorems parse(format(x)) = x on every string an on-the-fly environment can feed the scanner (all "
+         "scanner-directed strings over a reduced alphabet to length 6/7), on grammar-directed long strings (digit-count limits, "
+         "8th/9th fraction digit, exponents to 99999), on a boundary grid of every timestamp field incl. malformed variants, and on "
+         "all short integer strings plus strings around 2^31, 2^32, 2^63, 2^64. Every terminal state is exported as <input, demanded "
+         "result> and replayed on the real functions (set_lon/set_lat[_partial], as_string, Timestamp(..), parse_timestamp, to_iso, "
+         "opl_parse_*, string_to_*, str_to_int, output_int) comparing value, rest pointer and exception class under ASan/UBSan.",
+    design_ref="DESIGN.md section 4, C13",
+    note="Exhaustive only for scanner-directed strings up to length 6 (quick) / 7 (thorough) over an 8 resp. 11 symbol alphabet and "
+         "for the grammar-directed boundary sets; the infinite language and the full digit alphabet are not enumerated. The accepted "
+         "grammar includes libosmium's documented bounds (<=10 integer, <=27 fraction, <=5 exponent digits). Timestamp(const char*) is "
+         "modelled as the prefix parser it is (nothing behind the Z is checked), with 29-day Februaries and second 60; well-formed "
+         "dates outside the uint32 range are not compared. strtoll/strtoul/timegm/gmtime_r are environment models of the C contract. "
+         "The sweeps over the 2^32 coordinates and 2^32 timestamps (strided in quick, complete in thorough) run the spec's "
+         "round-trip theorem on the implementation and are reported separately; they are not what the level claim rests on.",
+    technique="TLA+ specs + TLC exhaustive I=>A refinement check; spec-exported cases replayed on the implementation; round-trip theorem sweep"),
+ "C06": dict(
+    category="model_checking",
+    text="specs/Chunking.tla models the delivery of one byte stream in arbitrary consecutive pieces through the parser's input "
+         "queue (get_input/input_done); four modules extend it with the carry-over code as written: LineByLine (OPL rest), "
+         "PbfRefill (m_input_buffer, ensure_available/pop, EOF-in-length rule), O5mRefill (m_input, m_data/m_end offsets, "
+         "ensure_bytes_available with its erase/append/re-point order, real sizes 7 and 10) and XmlFeed (expat feed with the final "
+         "flag). TLC checks for every stream within the bounds and EVERY segmentation that tokens+verdict equal a function of the "
+         "bytes alone and that the window holds exactly the received, unconsumed bytes; the pre-fix variants of OPL and o5m must "
+         "violate the invariants (vacuity guard). Exported (stream, pieces, expected tokens/verdict) are materialised as real "
+         "OPL/PBF/o5m/XML files and read by Reader through a mock Decompressor that returns exactly those pieces; line_by_line() is "
+         "also driven directly byte for byte. Header, full object dump and error class/message are additionally compared with the "
+         "one-piece run for every single cut, pairs of cuts, fixed sizes, random cut sets and every truncation of the fixture files "
+         "and generated files; thorough also reads through the real plain/gzip/bzip2 fd decompressors with piece size 1 and 7.",
+    design_ref="DESIGN.md section 4, C06",
+    note="Bounds: streams <= 5 (thorough 7) abstract bytes for OPL, <= 3 PBF frames, <= 2-3 o5m datasets, <= 4 XML elements; PBF/XML "
+         "model bytes map proportionally onto real fields; expat is an assumed environment contract, not modelled; on errors only "
+         "class/message (and completed PBF blobs) are compared with the spec, everything else with the one-piece run; the sweeps on "
+         "real files apply the spec's theorem differentially (oracle = one-piece run); PBF read directly from a file descriptor is "
+         "outside (not piece based).",
+    technique="TLA+ specs + TLC invariant check over all segmentations; spec-to-code replay through a mock Decompressor; "
+              "differential sweeps justified by the checked theorem"),
+ "C09": dict(
+    category="model_checking",
+    text="specs/Decompress.tla: A-layer = reference decompressor over a file of 1..3 concatenated streams (all payloads, or error "
+         "for a file cut inside a stream / with a corrupted byte); environment modules for one inflate/BZ2_bzDecompress stream "
+         "object (avail_in left over, STREAM_END with or after the last byte), libbz2's BZ2_bzRead/GetUnused over a FILE* with "
+         "R-byte read blocks and the stdio EOF indicator, and zlib's gzread/gzclose_r (members, short count + Z_BUF_ERROR at "
+         "close, transparent mode, the EOF shortcut); I-layer = Bzip2Decompressor::read, GzipDecompressor::read/close, both "
+         "buffer decompressors and ReadThread's 'empty string ends the input'. TLC checks I => A (complete output, empty piece "
+         "only at the true end, offset <= file size, every truncation and corruption is an error, round trip, termination) for "
+         "every layout around the scaled boundaries, and rejects the pre-fix algorithms (Algo=legacy). The exported layouts are "
+         "made concrete (real gzip/bzip2 streams; payloads at multiples of the piece size +-1; bzip2 streams ending exactly on / "
+         "next to libbz2's 5000 byte block boundary) and replayed on the four real decompressors through a read() loop and "
+         "through ReadThreadManager, plus the library's own compressors for the round trip.",
+    design_ref="DESIGN.md section 4, C09",
+    note="Scaled constants (R=3 for 5000, B=2 for the piece size); piece size 8192 via OSMIUM_VERIF_INPUT_BUFFER_SIZE (thorough: "
+         "also the real 1 MiB on a subset), payloads <= 2.5 pieces per stream, <= 3 streams; one corrupted byte, counted only "
+         "if Python's reference decompressor notices it; empty files and trailing garbage are outside the file model; the "
+         "library contracts in the environment modules were probed, not proven; zlib's internal 16 KiB buffer is not "
+         "modelled (its effect is classified by a bare-zlib probe). Open findings F3c/F3d (zlib gz layer).",
+    technique="TLA+ spec with environment modules + TLC invariant/liveness check; spec-to-code replay of exported file layouts "
+              "and faults on the real decompressors with the spec's A-layer as oracle"),
+ "C05": dict(
+    category="model_checking",
+    text="specs/ReaderPipeline.tla models the four-party protocol behind osmium::io::Reader (read thread, parser thread, pool "
+         "workers completing futures in any order, consumer) with one action per step of reader.hpp / read_thread.hpp / "
+         "input_format.hpp / queue_util.hpp over the queue interface verified in C19, next to the A-layer Expected(cfg): the "
+         "consumer-visible log as a function of (file, entity selection, consumer script) - blocks in file order, nested buffers "
+         "oldest first, unselected blocks skipped, end-of-data marker, then failing reads. TLC checks under every interleaving, "
+         "queue bound, pool/no pool, fd mode that the log equals Expected(cfg). Binding: TLC-exported configurations run on the "
+         "real Reader under seeded schedule perturbation (hooks in queue/pool): mock decompressor+parser with nested buffers and "
+         "out-of-order pool completion and real PBF files through the real PBF parser - API log == Expected(cfg) and the recorded "
+         "event trace (queue hooks, read(2) interposition, mock events, API calls) validated by TLC against "
+         "ReaderPipelineTrace.tla; real XML/OPL/PBF files written by the library with every entity selection, read_meta on/off, "
+         "buffers_type any/single, pool sizes 1/2/4, queue bounds 2/3/20 - flattened object sequence == the selected objects of the "
+         "model's file in order, complete when the end marker was returned.",
+    design_ref="DESIGN.md section 4, C05/C07",
+    note="All interleavings are enumerated on the spec (<= 3 chunks, <= 3 nested buffers, queue bounds 1-3); on the real code "
+         "schedules are perturbed (seeded), every observed execution validated. Files have <= 4 blocks of one entity type each "
+         "(x up to 20000 objects per nested buffer in the thorough tier); o5m is read-only in libosmium and covered by C02/C06; "
+         "entity selection is modelled at block granularity; read_meta=no is honoured only by the PBF parser - for the others the "
+         "check accepts metadata present (the property only says nothing else changes). Pool sizes up to 4, not 32.",
+    technique="TLA+ spec + TLC (all interleavings, refinement of Expected(cfg)); spec-to-code replay of exported configurations; "
+              "trace validation of recorded executions against the spec"),
+ "C07": dict(
+    category="model_checking",
+    text="Same spec as C05 (specs/ReaderPipeline.tla) with the fault and stop dimensions: the j-th decompressor read throws, "
+         "decompressor close throws, the parser throws before/after the header at chunk m, the pool task of block m throws, "
+         "file truncated/corrupted at blob m (real PBF), consumer scripts over header/read/readall/close + destructor. TLC "
+         "checks for every configuration and every interleaving: log == Expected(cfg) (first error reported exactly once from "
+         "header()/read(), nothing delivered after it, reads after eof/close/error fail), no deadlock, termination under weak "
+         "fairness (FairSpec), at most the in-flight read after close() (read thread and fd-reading parser), header promise set "
+         "exactly once, no thread and no descriptor left when the Reader is gone. Binding: exported configurations run on the real "
+         "Reader with faults injected through the factory seams (mock decompressor/parser) and by truncating/corrupting real PBF "
+         "files, under seeded schedule perturbation; API log compared with Expected(cfg), leaked threads/descriptors counted "
+         "from /proc, a watchdog reports hangs, and every recorded execution (queue hook events, read(2) interposition on the PBF "
+         "descriptor, mock events, API call/return) is validated by TLC against ReaderPipelineTrace.tla.",
+    design_ref="DESIGN.md section 4, C05/C07",
+    note="One fault per configuration; header() after close() is outside the scripts (its result legitimately depends on how far "
+         "the parser got). 'Reads nothing more after close' is formalised as: the read thread starts at most one more read after "
+         "close() was called and none after it returned; the PBF parser reading the descriptor itself starts at most one more "
+         "blob (two when the header blob is still being read) after the output queue was shut down. Real schedules are perturbed, "
+         "not enumerated. zlib/expat internals are environment. Found and fixed F6 (PBF parser read the whole file after close) "
+         "and F7b (descriptor leak on PBF parse error).",
+    technique="TLA+ spec + TLC (safety, deadlock, liveness under fairness); spec-to-code replay with fault injection; trace "
+              "validation of recorded executions against the spec"),
 }
 
 NOT_APPLICABLE = {
